@@ -1,8 +1,219 @@
-(* C19 part A - property theorems (filled in as the proofs land). *)
+(* C19 part A - search heuristics report the best point they evaluated: anneal, lns, alns, tabu_search,
+   evolve (part B: Props/C19_b.v).  Shape O: every theorem quantifies over ALL value streams (objective
+   values in call order, user sign) and ALL oracle streams (acceptance decisions, stop requests, candidate
+   lists / move numberings, numbers of children) of unbounded length.  `<solver> ... = Some r` excludes only
+   recordings that are not well-formed (events missing or left over); the machines are tied to /repo on
+   every run by the generated correspondence lemmas (harness/props/C19.py).
+   This file contains only `exact`-proofs of statements proved in coq/C19/A_*.v. *)
 From Coq Require Import List ZArith Bool Arith.
-From SV Require Import C19.Common.
+From SV Require Import C19.Common C19.A_Anneal C19.A_Lns C19.A_Tabu C19.A_Evolve C19.A_Check
+  C19.A_AnnealProofs C19.A_LnsProofs C19.A_TabuProofs C19.A_EvolveProofs C19.A_Theorems.
 Import ListNotations.
+Open Scope Z_scope.
 
+(* the boolean specification checker run on implementation outputs is sound *)
 Theorem C19_spec_check_sound : forall m us o, obs_spec_check m us o = true -> ObsSpec m us o.
 Proof. exact obs_spec_check_sound. Qed.
 Print Assumptions C19_spec_check_sound.
+
+(* reading of BestSpec in the user's words *)
+Theorem C19_spec_user_words : forall m us r, BestSpec m us r ->
+  (m = true -> forall u, In u us -> r_obj r <= u) /\ (m = false -> forall u, In u us -> u <= r_obj r).
+Proof. exact spec_user_words. Qed.
+Print Assumptions C19_spec_user_words.
+
+(* ------------------------------------------------------------------ anneal *)
+
+Theorem best_is_min_anneal : forall m mi u0 evs r, anneal m mi u0 evs = Some r -> Forall (better_eq m (r_obj r)) (anneal_log u0 evs).
+Proof. exact anneal_best_is_min. Qed.
+Print Assumptions best_is_min_anneal.
+
+Theorem best_is_f_anneal : forall m mi u0 evs r, anneal m mi u0 evs = Some r -> nth_error (anneal_log u0 evs) (r_id r) = Some (r_obj r).
+Proof. exact anneal_best_is_f. Qed.
+Print Assumptions best_is_f_anneal.
+
+Theorem evals_count_anneal : forall m mi u0 evs r, anneal m mi u0 evs = Some r -> r_evals r = length (anneal_log u0 evs).
+Proof. exact anneal_evals_count. Qed.
+Print Assumptions evals_count_anneal.
+
+Theorem C19_anneal_spec : forall m mi u0 evs r, anneal m mi u0 evs = Some r -> BestSpec m (anneal_log u0 evs) r.
+Proof. exact anneal_spec. Qed.
+Print Assumptions C19_anneal_spec.
+
+Theorem mirror_anneal : forall mi u0 evs, anneal false mi u0 evs = option_map neg_result (anneal true mi (- u0) (map a_neg evs)).
+Proof. exact anneal_mirror. Qed.
+Print Assumptions mirror_anneal.
+
+Theorem deterministic_anneal : forall m mi u0 evs r1 r2, anneal m mi u0 evs = Some r1 -> anneal m mi u0 evs = Some r2 -> r1 = r2.
+Proof. exact anneal_deterministic. Qed.
+Print Assumptions deterministic_anneal.
+
+(* ------------------------------------------------------------------ lns *)
+
+Theorem best_is_min_lns : forall m mi mni u0 evs r, lns m mi mni u0 evs = Some r -> Forall (better_eq m (r_obj r)) (lns_log u0 evs).
+Proof. exact lns_best_is_min. Qed.
+Print Assumptions best_is_min_lns.
+
+Theorem best_is_f_lns : forall m mi mni u0 evs r, lns m mi mni u0 evs = Some r -> nth_error (lns_log u0 evs) (r_id r) = Some (r_obj r).
+Proof. exact lns_best_is_f. Qed.
+Print Assumptions best_is_f_lns.
+
+Theorem evals_count_lns : forall m mi mni u0 evs r, lns m mi mni u0 evs = Some r -> r_evals r = length (lns_log u0 evs).
+Proof. exact lns_evals_count. Qed.
+Print Assumptions evals_count_lns.
+
+Theorem C19_lns_spec : forall m mi mni u0 evs r, lns m mi mni u0 evs = Some r -> BestSpec m (lns_log u0 evs) r.
+Proof. exact lns_spec. Qed.
+Print Assumptions C19_lns_spec.
+
+Theorem mirror_lns : forall mi mni u0 evs, lns false mi mni u0 evs = option_map neg_result (lns true mi mni (- u0) (map l_neg evs)).
+Proof. exact lns_mirror. Qed.
+Print Assumptions mirror_lns.
+
+Theorem deterministic_lns : forall m mi mni u0 evs r1 r2, lns m mi mni u0 evs = Some r1 -> lns m mi mni u0 evs = Some r2 -> r1 = r2.
+Proof. exact lns_deterministic. Qed.
+Print Assumptions deterministic_lns.
+
+(* ------------------------------------------------------------------ alns *)
+
+Theorem best_is_min_alns : forall m mi mni u0 evs r, alns m mi mni u0 evs = Some r -> Forall (better_eq m (r_obj r)) (lns_log u0 evs).
+Proof. exact alns_best_is_min. Qed.
+Print Assumptions best_is_min_alns.
+
+Theorem best_is_f_alns : forall m mi mni u0 evs r, alns m mi mni u0 evs = Some r -> nth_error (lns_log u0 evs) (r_id r) = Some (r_obj r).
+Proof. exact alns_best_is_f. Qed.
+Print Assumptions best_is_f_alns.
+
+Theorem evals_count_alns : forall m mi mni u0 evs r, alns m mi mni u0 evs = Some r -> r_evals r = length (lns_log u0 evs).
+Proof. exact alns_evals_count. Qed.
+Print Assumptions evals_count_alns.
+
+Theorem C19_alns_spec : forall m mi mni u0 evs r, alns m mi mni u0 evs = Some r -> BestSpec m (lns_log u0 evs) r.
+Proof. exact alns_spec. Qed.
+Print Assumptions C19_alns_spec.
+
+Theorem mirror_alns : forall mi mni u0 evs, alns false mi mni u0 evs = option_map neg_result (alns true mi mni (- u0) (map l_neg evs)).
+Proof. exact alns_mirror. Qed.
+Print Assumptions mirror_alns.
+
+Theorem deterministic_alns : forall m mi mni u0 evs r1 r2, alns m mi mni u0 evs = Some r1 -> alns m mi mni u0 evs = Some r2 -> r1 = r2.
+Proof. exact alns_deterministic. Qed.
+Print Assumptions deterministic_alns.
+
+(* ------------------------------------------------------------------ tabu *)
+
+Theorem best_is_min_tabu : forall m cd mi mni u0 evs r, tabu m cd mi mni u0 evs = Some r -> Forall (better_eq m (r_obj r)) (tabu_log u0 evs).
+Proof. exact tabu_best_is_min. Qed.
+Print Assumptions best_is_min_tabu.
+
+Theorem best_is_f_tabu : forall m cd mi mni u0 evs r, tabu m cd mi mni u0 evs = Some r -> nth_error (tabu_log u0 evs) (r_id r) = Some (r_obj r).
+Proof. exact tabu_best_is_f. Qed.
+Print Assumptions best_is_f_tabu.
+
+Theorem evals_count_tabu : forall m cd mi mni u0 evs r, tabu m cd mi mni u0 evs = Some r -> r_evals r = length (tabu_log u0 evs).
+Proof. exact tabu_evals_count. Qed.
+Print Assumptions evals_count_tabu.
+
+Theorem C19_tabu_spec : forall m cd mi mni u0 evs r, tabu m cd mi mni u0 evs = Some r -> BestSpec m (tabu_log u0 evs) r.
+Proof. exact tabu_spec. Qed.
+Print Assumptions C19_tabu_spec.
+
+Theorem mirror_tabu : forall cd mi mni u0 evs, tabu false cd mi mni u0 evs = option_map neg_result (tabu true cd mi mni (- u0) (map t_neg evs)).
+Proof. exact tabu_mirror. Qed.
+Print Assumptions mirror_tabu.
+
+Theorem deterministic_tabu : forall m cd mi mni u0 evs r1 r2, tabu m cd mi mni u0 evs = Some r1 -> tabu m cd mi mni u0 evs = Some r2 -> r1 = r2.
+Proof. exact tabu_deterministic. Qed.
+Print Assumptions deterministic_tabu.
+
+(* ------------------------------------------------------------------ evolve *)
+
+Theorem best_is_min_evolve : forall m el mi us0 evs r, evolve m el mi us0 evs = Some r -> Forall (better_eq m (r_obj r)) (evolve_log us0 evs).
+Proof. exact evolve_best_is_min. Qed.
+Print Assumptions best_is_min_evolve.
+
+Theorem best_is_f_evolve : forall m el mi us0 evs r, evolve m el mi us0 evs = Some r -> nth_error (evolve_log us0 evs) (r_id r) = Some (r_obj r).
+Proof. exact evolve_best_is_f. Qed.
+Print Assumptions best_is_f_evolve.
+
+Theorem evals_count_evolve : forall m el mi us0 evs r, evolve m el mi us0 evs = Some r -> r_evals r = length (evolve_log us0 evs).
+Proof. exact evolve_evals_count. Qed.
+Print Assumptions evals_count_evolve.
+
+Theorem C19_evolve_spec : forall m el mi us0 evs r, evolve m el mi us0 evs = Some r -> BestSpec m (evolve_log us0 evs) r.
+Proof. exact evolve_spec. Qed.
+Print Assumptions C19_evolve_spec.
+
+Theorem mirror_evolve : forall el mi us0 evs, evolve false el mi us0 evs = option_map neg_result (evolve true el mi (map Z.opp us0) (map g_neg evs)).
+Proof. exact evolve_mirror. Qed.
+Print Assumptions mirror_evolve.
+
+Theorem deterministic_evolve : forall m el mi us0 evs r1 r2, evolve m el mi us0 evs = Some r1 -> evolve m el mi us0 evs = Some r2 -> r1 = r2.
+Proof. exact evolve_deterministic. Qed.
+Print Assumptions deterministic_evolve.
+
+(* ------------------------------------------------------------------ the lns of the pinned tree *)
+(* best updated only inside the accepted branch: best_is_min fails (witness of DESIGN.md C19, replayed on
+   the code: corpus/C19/lns_accept_rejects_improvement.json; repaired in /repo by dee0058) *)
+Theorem lns_pinned_refuted :
+  exists m mi mni u0 evs r,
+    lns_pinned m mi mni u0 evs = Some r /\ ~ Forall (better_eq m (r_obj r)) (lns_log u0 evs).
+Proof. exact A_LnsProofs.lns_pinned_refuted. Qed.
+Print Assumptions lns_pinned_refuted.
+
+(* where accept never rejects a candidate better than the incumbent the pinned step IS the repaired step *)
+Theorem lns_pinned_agrees_when_accept_respects_improvement : forall m mni it s e,
+  (ev_call m (l_u e) <? l_best_obj s = true -> l_acc e = true) ->
+  lns_step_pinned m mni it s e = lns_step m mni it s e.
+Proof. exact lns_pinned_step_agrees. Qed.
+Print Assumptions lns_pinned_agrees_when_accept_respects_improvement.
+
+(* ------------------------------------------------------------------ transfer to the implementation *)
+(* every generated correspondence case that evaluates to true certifies that the implementation's own
+   (solution, objective, evaluations) on that run satisfies ObsSpec w.r.t. the recorded log *)
+Theorem C19_anneal_corr_transfer : forall m mi u0 evs us o,
+  anneal_corr (ACase m mi u0 evs us o) = true -> ObsSpec m us o.
+Proof. exact anneal_corr_transfer. Qed.
+Print Assumptions C19_anneal_corr_transfer.
+Theorem C19_lns_corr_transfer : forall m mi mni u0 evs us o,
+  lns_corr (LCase 0 m mi mni u0 evs us o) = true -> ObsSpec m us o.
+Proof. exact lns_corr_transfer. Qed.
+Print Assumptions C19_lns_corr_transfer.
+Theorem C19_alns_corr_transfer : forall m mi mni u0 evs us o,
+  lns_corr (LCase 1 m mi mni u0 evs us o) = true -> ObsSpec m us o.
+Proof. exact alns_corr_transfer. Qed.
+Print Assumptions C19_alns_corr_transfer.
+Theorem C19_tabu_corr_transfer : forall m cd mi mni u0 evs us o,
+  tabu_corr (TCase m cd mi mni u0 evs us o) = true -> ObsSpec m us o.
+Proof. exact tabu_corr_transfer. Qed.
+Print Assumptions C19_tabu_corr_transfer.
+Theorem C19_evolve_corr_transfer : forall m el mi us0 evs us o,
+  evolve_corr (GCase m el mi us0 evs us o) = true -> ObsSpec m us o.
+Proof. exact evolve_corr_transfer. Qed.
+Print Assumptions C19_evolve_corr_transfer.
+
+(* ------------------------------------------------------------------ non-vacuity *)
+(* an uphill move accepted after the best point was seen *)
+Example anneal_nonvacuous :
+  anneal true 4 5 [AEval 3 false false; AEval 7 true false; AEval 3 false false; AEval 9 false true]
+  = Some {| r_id := 1; r_obj := 3; r_evals := 5; r_iters := 4 |}.
+Proof. exact anneal_example. Qed.
+(* the repaired lns on the witness streams keeps the evaluated 4 although accept said no *)
+Example lns_nonvacuous :
+  lns true 3 100 5 lns_witness_events = Some {| r_id := 1; r_obj := 4; r_evals := 4; r_iters := 3 |}.
+Proof. exact lns_fixed_on_witness. Qed.
+Example alns_nonvacuous :
+  alns false 5 2 1 [mkL 3 false false; mkL 2 true false; mkL 3 false false]
+  = Some {| r_id := 1; r_obj := 3; r_evals := 4; r_iters := 3 |}.
+Proof. exact alns_example. Qed.
+Example tabu_nonvacuous :
+  tabu true 2 10 100 5
+    [mkT [(0%nat, 3); (1%nat, 4)] false; mkT [(0%nat, 6); (1%nat, 7)] false;
+     mkT [(0%nat, 2); (1%nat, 9)] false; mkT [(0%nat, 8); (1%nat, 8)] false]
+  = Some {| r_id := 5; r_obj := 2; r_evals := 9; r_iters := 4 |}.
+Proof. exact tabu_example. Qed.
+(* no elitism: the best individual leaves the population and survives only in best_solution *)
+Example evolve_nonvacuous :
+  evolve true 0 2 [4; 1; 3] [mkG [5; 6; 2] false; mkG [1; 7; 7] false]
+  = Some {| r_id := 1; r_obj := 1; r_evals := 9; r_iters := 2 |}.
+Proof. exact evolve_example. Qed.
